@@ -294,6 +294,20 @@ namespace c13
         cmp_scal(4, "Matrix::rows<native>", true, (long double)B.N, 0); cmp_scal(5, "bytes() > 0", true, 1.0L, 0);
         cmp_vec(0, "Matrix::apply_transposed", true, [&](int, Index b, int c) { return ATu(b, c); }, zero);
         cmp_vec(1, "Matrix::apply_transposed(r,x,y,alpha)", p2, [&](int, Index b, int c) { return (long double)val_v(b, c) + 0.5L * ATu(b, c); }, [&](int, Index b, int c) { return fabsl((long double)val_v(b, c)) + absATu(b, c); });
+        for(int r = 0; r < P && V.ok(); ++r)
+        {
+          const auto& R = *w.ranks[size_t(r)];
+          if(outs[size_t(r)].mat.size() < size_t(R.ndofs) * size_t(2 * bs)) { V.fail("apply_transposed_async: rank " + std::to_string(r) + " delivered no vectors"); break; }
+          for(Index j = 0; j < R.ndofs && V.ok(); ++j) for(int c = 0; c < bs; ++c)
+          {
+            const Index b = R.p2b[size_t(j)];
+            const double g1 = outs[size_t(r)].mat[size_t(j) * size_t(bs) + size_t(c)], g2 = outs[size_t(r)].mat[size_t(R.ndofs) * size_t(bs) + size_t(j) * size_t(bs) + size_t(c)];
+            const long double w1 = ATu(b, c), w2 = (long double)val_v(b, c) + 0.5L * ATu(b, c);
+            if(!same_bits(g1, double(w1))) { std::ostringstream o; o.precision(17); o << "Matrix::apply_transposed_async: " << name(r, j, c) << " = " << g1 << ", expected " << double(w1); V.fail(o.str()); break; }
+            const bool ok2 = p2 ? same_bits(g2, double(w2)) : (fabsl((long double)g2 - w2) <= 32.0L * eps * (fabsl(w2) + fabsl((long double)val_v(b, c)) + absATu(b, c)));
+            if(!ok2) { std::ostringstream o; o.precision(17); o << "Matrix::apply_transposed_async(r,x,y,alpha): " << name(r, j, c) << " = " << g2 << ", expected " << double(w2); V.fail(o.str()); break; }
+          }
+        }
         cmp_vec(2, "Matrix::apply_async", true, [&](int, Index b, int c) { return Au(b, c); }, zero);
         cmp_vec(3, "Matrix::apply_async(r,x,y,alpha)", p2, [&](int, Index b, int c) { return (long double)val_v(b, c) - 0.5L * Au(b, c); }, [&](int, Index b, int c) { return fabsl((long double)val_v(b, c)) + absAu(b, c); });
         double mn = 1e300, mxe = -1e300, mne = 1e300;
@@ -307,11 +321,11 @@ namespace c13
           for(int r = 0; r < P && V.ok(); ++r)
           {
             const auto& R = *w.ranks[size_t(r)];
-            if(outs[size_t(r)].mat.size() != size_t(R.ndofs) * 6u) { V.fail("rect-block apply_transposed: rank " + std::to_string(r) + " delivered no vectors"); break; }
+            if(outs[size_t(r)].mat.size() != size_t(R.ndofs) * 10u) { V.fail("rect-block apply_transposed: rank " + std::to_string(r) + " delivered no vectors"); break; }
             for(Index j = 0; j < R.ndofs && V.ok(); ++j) for(int c = 0; c < 3; ++c)
             {
               const Index b = R.p2b[size_t(j)];
-              const double g1 = outs[size_t(r)].mat[size_t(j) * 3u + size_t(c)], g2 = outs[size_t(r)].mat[size_t(R.ndofs) * 3u + size_t(j) * 3u + size_t(c)];
+              const double g1 = outs[size_t(r)].mat[size_t(R.ndofs) * 4u + size_t(j) * 3u + size_t(c)], g2 = outs[size_t(r)].mat[size_t(R.ndofs) * 7u + size_t(j) * 3u + size_t(c)];
               const long double w1 = RTu(b, c), w2 = (long double)val_v(b, c) - 0.5L * RTu(b, c);
               if(!same_bits(g1, double(w1))) { std::ostringstream o; o.precision(17); o << "rect-block Matrix::apply_transposed: " << name(r, j, c) << " = " << g1 << ", expected " << double(w1); V.fail(o.str()); break; }
               const bool ok2 = p2 ? same_bits(g2, double(w2)) : (fabsl((long double)g2 - w2) <= 32.0L * eps * (fabsl(w2) + fabsl((long double)val_v(b, c)) + absRTu(b, c)));
